@@ -7,6 +7,8 @@ serving of pre-compressed ``.gz`` files with ``Content-Encoding: gzip``, byte
 
     "normal"            static serving
     ("status", code)    reply with that status and an empty body
+    ("status-json", code)  reply with that status and a JSON error document
+                        (Content-Type: application/json), as object stores and gateways do
     "drop"              close the connection without replying
     "short" / "long"    reply as normal but with a body one byte shorter / longer
                         (Content-Length consistent with what is sent)
@@ -82,10 +84,11 @@ class Handler(http.server.BaseHTTPRequestHandler):
     def log_message(self, *a):       # silence
         pass
 
-    def _reply(self, status, body=b"", enc=False, head=False, total=None, rng=None):
+    def _reply(self, status, body=b"", enc=False, head=False, total=None, rng=None,
+               ctype="application/octet-stream"):
         self.send_response(status)
         self.send_header("Content-Length", str(len(body)))
-        self.send_header("Content-Type", "application/octet-stream")
+        self.send_header("Content-Type", ctype)
         self.send_header("Accept-Ranges", "bytes")
         if enc:
             self.send_header("Content-Encoding", "gzip")
@@ -110,6 +113,10 @@ class Handler(http.server.BaseHTTPRequestHandler):
             return
         if isinstance(beh, (tuple, list)) and beh[0] == "status":
             self._reply(int(beh[1]), b"", head=head)
+            return
+        if isinstance(beh, (tuple, list)) and beh[0] == "status-json":
+            self._reply(int(beh[1]), b'{"error": {"code": %d, "message": "temporarily unavailable"}}' % int(beh[1]),
+                        head=head, ctype="application/json")
             return
         if beh == "ignore-range":
             rng = None
@@ -161,7 +168,9 @@ class Handler(http.server.BaseHTTPRequestHandler):
                 pass
             self.close_connection = True
             return
-        self._reply(status, body, enc=enc, total=len(data), rng=crange)
+        ctype = ("application/json" if self.path.split("?")[0].endswith((".json", "/info"))
+                 else "application/octet-stream")
+        self._reply(status, body, enc=enc, total=len(data), rng=crange, ctype=ctype)
 
     def do_GET(self):
         self._serve(False)
